@@ -1,4 +1,4 @@
-(** C11 model of internal/reporter/reporter.go (as it is after fixes 980af37, 1588b37, d8f60c6 and 346020d), json.go and the skeleton of
+(** C11 model of internal/reporter/reporter.go (as it is after fixes 980af37, 1588b37, d8f60c6, 346020d and bc86063), json.go and the skeleton of
     console.go:  Report, isEqual, Summary.Report/hasReport, SortReports (diagnostic sort + 8-key stable sort
     incl. cmpDiagnostics), Dedup, CountBySeverity, JSON / console rendering.
 
@@ -21,7 +21,8 @@ Record diag := { dg_msg : string; dg_first : Z; dg_last : Z; dg_extra : N }.
 Record report := {
   r_path : string; r_target : string; r_owner : string; r_rule : N; r_name : string;
   r_reporter : string; r_summary : string; r_details : string;
-  r_diags : list diag; r_lfirst : Z; r_llast : Z; r_sev : Z; r_anchor_before : bool }.
+  r_diags : list diag; r_lfirst : Z; r_llast : Z; r_sev : Z; r_anchor_before : bool;
+  r_rfirst : Z; r_rlast : Z   (* Report.Rule.Lines.First/Last: sort keys since fix bc86063 *) }.
 
 (* ---------------------------------------------------------------------------------------------- *)
 (** * Equality *)
@@ -96,7 +97,7 @@ Definition norm (r : report) : report :=
   {| r_path := r_path r; r_target := r_target r; r_owner := r_owner r; r_rule := r_rule r; r_name := r_name r;
      r_reporter := r_reporter r; r_summary := r_summary r; r_details := r_details r;
      r_diags := sort_diags (r_diags r); r_lfirst := r_lfirst r; r_llast := r_llast r; r_sev := r_sev r;
-     r_anchor_before := r_anchor_before r |}.
+     r_anchor_before := r_anchor_before r; r_rfirst := r_rfirst r; r_rlast := r_rlast r |}.
 
 (** the first seven keys of the report comparator *)
 Definition k7 : cmpf report :=
@@ -112,30 +113,48 @@ Fixpoint lcmp (sa sb : list diag) : comparison :=
   | x :: ra, y :: rb => match dcmp x y with Eq => lcmp ra rb | c => c end
   end.
 
-(** cmpDiagnostics(sa, sb) < 0 on the slices as they are after its two SortStableFunc(.., cmpDiags) calls; since fix
-    346020d the whole sorted lists are compared (before: only sa[0] and sb[0]) *)
-Definition cmp_diagnostics_neg (sa sb : list diag) : bool :=
-  match sa, sb with
-  | [], _ => true               (* len(sa)==0 -> -1, also when sb is empty *)
-  | _ :: _, [] => false         (* 1 *)
-  | _ :: _, _ :: _ => match lcmp sa sb with Lt => true | _ => false end
-  end.
+(** cmpDiagnostics(sa, sb) (inlined in [report_lt] below): -1 when sa is empty (also when sb is empty too), 1 when only sb is
+    empty, otherwise [lcmp] of the two slices after its two SortStableFunc(.., cmpDiags) calls (fix 346020d; before: only
+    sa[0] and sb[0] were compared) *)
 
-(** cmp.Or(k1..k7, cmpDiagnostics) < 0 *)
+(** the four trailing keys (fix bc86063): Rule.Lines.First, Rule.Lines.Last, Owner, Path.SymlinkTarget *)
+Definition tcmp : cmpf report :=
+  lex (on r_rfirst Z.compare) (lex (on r_rlast Z.compare) (lex (on r_owner String.compare) (on r_target String.compare))).
+
+(** cmp.Or(k1..k7, cmpDiagnostics, t1..t4) < 0.  cmp.Or returns its first non-zero argument and cmpDiagnostics answers
+    -1 / 1 as soon as one of the slices is empty, so the trailing keys are only read when both reports have diagnostics. *)
 Definition report_lt (a b : report) : bool :=
   match k7 a b with
   | Lt => true
   | Gt => false
-  | Eq => cmp_diagnostics_neg (fsort (r_diags a)) (fsort (r_diags b))
+  | Eq => match fsort (r_diags a), fsort (r_diags b) with
+          | [], _ => true               (* len(sa)==0 -> -1, also when sb is empty *)
+          | _ :: _, [] => false         (* 1 *)
+          | sa, sb => match lcmp sa sb with
+                      | Lt => true
+                      | Gt => false
+                      | Eq => match tcmp a b with Lt => true | _ => false end
+                      end
+          end
   end.
 
-(** The sort key as data: seven fields + ALL diagnostics in cmpDiags order (columns, message, Pos). *)
+(** The sort key as data: seven fields + ALL diagnostics in cmpDiags order (columns, message, Pos) + for reports WITH
+    diagnostics the rule's lines, the owner and the symlink target. *)
 Definition dkey (d : diag) := (dg_first d, dg_last d, dg_msg d, dg_extra d).
+Definition tkey (r : report) : option report := match fsort (r_diags r) with [] => None | _ => Some r end.
 Definition sort_key (r : report) :=
-  (r_path r, r_lfirst r, r_llast r, r_sev r, r_reporter r, r_summary r, r_details r, map dkey (fsort (r_diags r))).
+  (r_path r, r_lfirst r, r_llast r, r_sev r, r_reporter r, r_summary r, r_details r, map dkey (fsort (r_diags r)),
+   option_map (fun x => (r_rfirst x, r_rlast x, r_owner x, r_target x)) (tkey r)).
 
+Definition ocmp {A} (c : cmpf A) : cmpf (option A) := fun a b =>
+  match a, b with
+  | None, None => Eq
+  | None, Some _ => Lt
+  | Some _, None => Gt
+  | Some x, Some y => c x y
+  end.
 (** the genuine order the comparator implements when no two compared reports tie *)
-Definition kcmp : cmpf report := lex k7 (on (fun r => fsort (r_diags r)) lcmp).
+Definition kcmp : cmpf report := lex k7 (lex (on (fun r => fsort (r_diags r)) lcmp) (on tkey (ocmp tcmp))).
 
 (** Summary.SortReports *)
 Definition sort_reports (l : list report) : list report := go_stable_sort report_lt (map norm l).
@@ -260,7 +279,8 @@ Definition report_eqb (a b : report) : bool :=
   N.eqb (r_rule a) (r_rule b) && String.eqb (r_name a) (r_name b) && String.eqb (r_reporter a) (r_reporter b) &&
   String.eqb (r_summary a) (r_summary b) && String.eqb (r_details a) (r_details b) &&
   list_eqb diag_full_eqb (r_diags a) (r_diags b) && (r_lfirst a =? r_lfirst b) && (r_llast a =? r_llast b) &&
-  (r_sev a =? r_sev b) && Bool.eqb (r_anchor_before a) (r_anchor_before b).
+  (r_sev a =? r_sev b) && Bool.eqb (r_anchor_before a) (r_anchor_before b) &&
+  (r_rfirst a =? r_rfirst b) && (r_rlast a =? r_rlast b).
 
 Definition forall_pairs {A} (p : A -> A -> bool) (l : list A) : bool :=
   forallb (fun a => forallb (fun b => p a b) l) l.
